@@ -334,8 +334,23 @@ def analyse(facts, tier):
             for y in t:
                 loops_of(y, acc)
         return acc
+    # the range loops live in noteOn or in a local helper it calls with the scaled frequency
+    rng_fn = on
+    helper_call = None
+    def has_range_loops(g):
+        cnt = 0
+        for lp in loops_of(g.tree, []):
+            if any(f[0] == 'cmp' and f[1] == '>=' and (strip(f[2]).get('t') or {}).get('f') and 'fc' in strip(f[3]) for f in literals(lp['cond'], True)):
+                cnt += 1
+        return cnt >= 2
+    if not has_range_loops(on):
+        for b, j, st in on.cfg.stmts():
+            for x in calls_in(st['s']):
+                for cf in facts.fns.get(callee_name(x), [])[:1]:
+                    if is_local_helper(on, cf) and has_range_loops(cf):
+                        rng_fn, helper_call = cf, x
     hz_thr = collections.defaultdict(list)      # floating local -> [(threshold, loop)]
-    for lp in loops_of(on.tree, []):
+    for lp in loops_of(rng_fn.tree, []):
         for f in literals(lp['cond'], True):
             if f[0] == 'cmp' and f[1] == '>=' and strip(f[2]).get('k') == 'DeclRefExpr' and (strip(f[2]).get('t') or {}).get('f') and 'fc' in strip(f[3]):
                 hz_thr[strip(f[2])['id']].append((strip(f[3])['fc'], lp))
@@ -374,7 +389,23 @@ def analyse(facts, tier):
     def rounded_hz(e):
         return either(sides(e, '+'), lambda a: is_ref(a, hz_id), lambda a: strip(a).get('fc') == 0.5)
     ft_id, ft_txt, ft_ok = None, None, False
-    for b, j, st in on.cfg.stmts():
+    if helper_call is not None:
+        # the helper returns the combined value; noteOn keeps it in the local that receives the call
+        for b, j, st in rng_fn.cfg.returns():
+            e = st['s'].get('e')
+            if e is not None and mentions(e, lambda y: y.get('id') == oct_id) and mentions(e, lambda y: y.get('id') == hz_id):
+                ft_txt = show(strip(e))
+                ft_ok = either(sides(e, '+'), lambda a: is_ref(a, oct_id), rounded_hz)
+        for b, j, st in on.cfg.stmts():
+            if st['s'].get('k') == 'DeclStmt':
+                for v in st['s']['decls']:
+                    if v.get('init') is not None and any(y is helper_call for y in walk(v['init'])):
+                        ft_id = v['id']
+            for x in walk(st['s']):
+                ap = assign_parts_raw(x)
+                if ap and ap[2] == '=' and strip(ap[0]).get('k') == 'DeclRefExpr' and any(y is helper_call for y in walk(ap[1])):
+                    ft_id = strip(ap[0])['id']
+    for b, j, st in (on.cfg.stmts() if helper_call is None else []):
         cand_ = []
         if st['s'].get('k') == 'DeclStmt':
             cand_ += [(v['id'], v['init']) for v in st['s']['decls'] if v.get('init') is not None]
